@@ -59,6 +59,8 @@ class ChunkParser:
             else:
                 # chunk-size [ chunk-ext ] CRLF, extensions are ignored
                 size = int(line.split(b';', 1)[0], 16)
+                if size < 0:
+                    raise ValueError('Invalid chunk size %r' % line)
                 if size == 0 and len(rest) < len(CRLF) and CRLF.startswith(rest):
                     # Last chunk is complete only along with the
                     # CRLF terminating the body, wait for it.
